@@ -457,3 +457,34 @@ theorem sepList1_joinComma {α} (p : Parser α) (pr : α → Str) (x : α) (xs :
   simp only [joinComma_cons, List.append_assoc, sepList1, hx, hl]
 
 end Huginn.SigText
+
+namespace Huginn.SigText
+open Huginn.Sig Huginn.SigText.Spec
+set_option linter.unusedSimpArgs false
+
+/-- print → parse for TCP signatures (stated as `tcp_print_parse` in `Props/C06.lean`) -/
+theorem parseTcpSigFull_print (s : TcpSig) (h : WFTcp s) : parseTcpSigFull (printTcpSig s) = some s := by
+  obtain ⟨ver, ittl, olen, mss, wsize, wscale, olayout, quirks, pclass⟩ := s
+  have e : printTcpSig ⟨ver, ittl, olen, mss, wsize, wscale, olayout, quirks, pclass⟩ =
+      printIpVersion ver ++ (':' :: (printTtl ittl ++ (':' :: (natDigits olen ++ (':' :: (printOptNat mss ++
+      (':' :: (printWSize wsize ++ (',' :: (printOptNat wscale ++ (':' :: (joinComma printOpt olayout ++
+      (':' :: (joinComma printQuirk quirks ++ (':' :: (printPayload pclass ++ [])))))))))))))))) := by
+    simp [printTcpSig]
+  have hol : ∀ r, sepList0 comma parseOpt (joinComma printOpt olayout ++ ':' :: r) = some (olayout, ':' :: r) :=
+    fun r => sepList0_joinComma parseOpt printOpt olayout (Or.inr ⟨r, rfl⟩)
+      (fun o ho r' hr' => parseOpt_print o (h.olayout o ho) hr') (fun _ => parseOpt_colon r)
+  have hq : ∀ r, sepList0 comma parseQuirk (joinComma printQuirk quirks ++ ':' :: r) = some (quirks, ':' :: r) :=
+    fun r => sepList0_joinComma parseQuirk printQuirk quirks (Or.inr ⟨r, rfl⟩)
+      (fun q _ r' _ => parseQuirk_print q r') (fun _ => parseQuirk_colon r)
+  unfold parseTcpSigFull full parseTcpSig
+  rw [e]
+  simp only [parseIpVersion_print, colon_cons, comma_cons, Option.bind_eq_bind, Option.bind_some,
+    fun r => parseTtl_print ittl h.ittl (Delim.colon r),
+    fun r => number_natDigits (show olen ≤ u8Max from h.olen) (NoDigit.cons (by decide : ':'.isDigit = false) r),
+    fun r => optNum_print u16Max mss h.mss (Delim.colon r),
+    fun r => parseWSize_print wsize h.wsize (Delim.comma r),
+    fun r => optNum_print u8Max wscale h.wscale (Delim.colon r),
+    hol, hq, parsePayload_print, Option.pure_def]
+
+
+end Huginn.SigText
